@@ -157,8 +157,7 @@ theorem geometry_from_coords (xa : XA α) (d : Nat) (G : Nat → Axis) (hgeo : g
 
 /-- `Field(mesh, nvdim, value=val, vdims=…, dtype=…)` on a value array of the field's shape -/
 theorem fieldOf_ok (xa : XA α) (m : Mesh) (k : Nat) (hs : (valOf xa k).shape = m.n ++ [k])
-    (vd : Option (List String)) (hvs : vdimsSet k xa.vdimsCoord = .ok vd)
-    (hmap : ¬ (k ≠ 1 ∧ k = m.region.dims.length ∧ vd = none)) :
+    (vd : Option (List String)) (hvs : vdimsSet k xa.vdimsCoord = .ok vd) :
     ∃ g, fieldOf xa m k = .ok g ∧ g.mesh = m ∧ g.nvdim = k ∧ Agree g.data (valOf xa k) ∧ g.vdims = vd ∧
       g.dtype = xa.dtype := by
   obtain ⟨d1, hd1, ha1⟩ := asArray_same (valOf xa k) m.n k hs
@@ -171,8 +170,6 @@ theorem fieldOf_ok (xa : XA α) (m : Mesh) (k : Nat) (hs : (valOf xa k).shape = 
   rw [hd2]
   simp only []
   rw [hvs]
-  simp only []
-  rw [if_neg hmap]
 
 omit [FieldAttrs] in
 theorem defaultVdims_ne_none (k : Nat) (hk : 1 < k) : Fld.defaultVdims k ≠ none := by
@@ -243,13 +240,7 @@ theorem import_hand_built_ok (xa : XA α) (d : Nat) (G : Nat → Axis) (hgeo : g
       | cons x l' =>
         unfold vdimsSet
         simp only [hl, ne_eq, not_true_eq_false, if_false, hdup, hres, Bool.false_eq_true]
-  have hmap : ¬ (k ≠ 1 ∧ k = m.region.dims.length ∧
-      (match xa.vdimsCoord with | some l => some l | none => Fld.defaultVdims k) = none) := by
-    rintro ⟨h1, -, h3⟩
-    cases hv : xa.vdimsCoord with
-    | some l => rw [hv] at h3; cases h3
-    | none => rw [hv] at h3; exact defaultVdims_ne_none k (by omega) h3
-  obtain ⟨g, hg, hgm, hgk, hga, hgv, hgt⟩ := fieldOf_ok xa m k hvs _ hvset hmap
+  obtain ⟨g, hg, hgm, hgk, hga, hgv, hgt⟩ := fieldOf_ok xa m k hvs _ hvset
   refine ⟨g, ?_, by rw [hgm]; exact hp1, by rw [hgm]; exact hp2, by rw [hgm]; exact hmn, by rw [hgm]; exact hdims,
     hgk, by rw [hga.1, hvs, hmn], ?_, hgt, hgv⟩
   · rw [fromXA_eq, hck]
